@@ -149,7 +149,7 @@ Definition type_is_integer (types : list ndecl) (id : string) : bool :=
   | None => false
   end.
 
-Definition fetch_pkg_enums (types : list ndecl) (p : gpkg) : result (list enum) :=
+Definition fetch_pkg_enums_raw (types : list ndecl) (p : gpkg) : result (list enum) :=
   do tbl <- collect (p_consts p) [];
   Ok (map (fun kv => let '(ms, iota) := set_is_iota (type_is_integer types (fst kv)) (snd kv) in
                      {| en_id := fst kv; en_members := ms; en_is_iota := iota |}) tbl).
@@ -189,10 +189,37 @@ Fixpoint concat_results {A} (l : list (result (list A))) : result (list A) :=
   | r :: rest => do a <- r; do b <- concat_results rest; Ok (a ++ b)%list
   end.
 
-(** fetchEnumsAndUnions, enum half: the union over the selected packages (enum ids are qualified, so
-    the merge of the per-package maps is disjoint) *)
+(** fetchEnumsAndUnions, enum half: the per-package maps merged in walk order *)
+(** fetchPkgEnums only keeps the constants whose type is declared in the package itself (as fixed: a constant
+    declared in another package is not a member) *)
+Definition own_const (types : list ndecl) (p : gpkg) (c : cdecl) : bool :=
+  match c_type c with
+  | Some id => match find_type id types with Some d => String.eqb (n_pkg d) (p_path p) | None => false end
+  | None => true
+  end.
+
+Definition own_pkg (types : list ndecl) (p : gpkg) : gpkg :=
+  {| p_path := p_path p; p_name := p_name p; p_imports := p_imports p;
+     p_consts := filter (own_const types p) (p_consts p);
+     p_type_names := p_type_names p; p_scope := p_scope p |}.
+
+Definition fetch_pkg_enums (types : list ndecl) (p : gpkg) : result (list enum) :=
+  fetch_pkg_enums_raw types (own_pkg types p).
+
+(** outEnums[k] = v: the package handled last wins (the tables are now disjoint). A package declaring constants of a type imports the
+    package of the type, which is therefore handled after it: when the defining package declares
+    constants itself, its table is the one kept. *)
+Definition merge_enums (acc new : list enum) : list enum :=
+  (filter (fun e => negb (existsb (fun n => String.eqb (en_id n) (en_id e)) new)) acc ++ new)%list.
+
+Fixpoint merge_all (l : list (result (list enum))) (acc : list enum) : result (list enum) :=
+  match l with
+  | [] => Ok acc
+  | r :: rest => do a <- r; merge_all rest (merge_enums acc a)
+  end.
+
 Definition fetch_enums (pr : prog) : result (list enum) :=
-  concat_results (map (fun path => match find_pkg path (pr_pkgs pr) with
-                                   | Some p => fetch_pkg_enums (pr_types pr) p
-                                   | None => Ok []
-                                   end) (selected_pkgs pr)).
+  merge_all (map (fun path => match find_pkg path (pr_pkgs pr) with
+                              | Some p => fetch_pkg_enums (pr_types pr) p
+                              | None => Ok []
+                              end) (selected_pkgs pr)) [].
